@@ -13,8 +13,8 @@ import Pcore.Model.DescribeSig
     PATH ::= (ELEM*)     ELEM ::= (s xKEY) | (e xKEY) | (k xKEY) | (p xKEY) | (r xKEY) | (b xKEY) | (i xKEY) | (v xKEY) | (g xKEY)
 
   Canonicalisation (both sides): a run of consecutive `xk` items with the same path is sorted by key (Go map order).
-  A term with a user alias answers `alias` (the model has no user aliases: they are expanded, and the describer treats an alias
-  specially); a Struct member name with a quote or a line break answers `unsafe-key` (the harness reads the structure back from the
+  A term with a user alias `(alias T)` is read as the one-member Variant `(var T)` — the model's alias marker — and answers with the
+  structure only (payloads with the aliases expanded); a Struct member name with a quote or a line break answers `unsafe-key` (the harness reads the structure back from the
   printed text).
 -/
 namespace DescC19
@@ -24,6 +24,27 @@ partial def hasAlias : Sexp → Bool
   | .atom _ => false
   | .list (.atom "alias" :: _) => true
   | .list xs => xs.any hasAlias
+
+/-- `(alias T)` is read as the one-member Variant `(var T)`: the model's marker of a user alias (header of Pcore/Model/Describe.lean) -/
+partial def aliasAsVar : Sexp → Sexp
+  | .atom a => .atom a
+  | .list [.atom "alias", t] => .list [.atom "var", aliasAsVar t]
+  | .list xs => .list (xs.map aliasAsVar)
+
+/-- payloads are printed with the aliases expanded (as the harness encoder prints live types) -/
+partial def expandAlias : Ty → Ty
+  | .variant [t] => expandAlias t
+  | .array e r => .array (expandAlias e) r
+  | .hash k v r => .hash (expandAlias k) (expandAlias v) r
+  | .tuple ts g => .tuple (ts.map expandAlias) g
+  | .struct ms => .struct (ms.map fun (n, o, t) => (n, o, expandAlias t))
+  | .variant ts => .variant (ts.map expandAlias)
+  | .optional t => .optional (expandAlias t)
+  | .notUndef t => .notUndef (expandAlias t)
+  | .typ t => .typ (expandAlias t)
+  | .sensitive t => .sensitive (expandAlias t)
+  | .iterable t => .iterable (expandAlias t)
+  | t => t
 
 def unsafeKey (s : String) : Bool := s.any fun c => c == '\'' || c == '\n' || c == '\r'
 
@@ -58,7 +79,7 @@ def itemStr : Mismatch → String
 /-! the FULL payloads (structured observation through the hook px.VerifDescribe): type terms in the syntax of harness/lat/doc.go; the two
     members of RichData outside the term language are the atoms `typeset` / `deferred`; a Variant — given or built by a merge — is `(var …)` -/
 def atomFull : Atom → String
-  | .ty t => Lat.tyStr t
+  | .ty t => Lat.tyStr (expandAlias t)
   | .typeSet => "typeset"
   | .deferred => "deferred"
 
@@ -67,8 +88,8 @@ def expFull : Exp → String
   | .merged ms => "(var" ++ String.join (ms.map fun x => " " ++ atomFull x) ++ ")"
 
 def itemFull : Mismatch → String
-  | .typeMismatch p e a => s!"(tm {pathStr p} {expFull e} {Lat.tyStr a})"
-  | .patternMismatch p e a => s!"(pm {pathStr p} {Lat.tyStr e} {Lat.tyStr a})"
+  | .typeMismatch p e a => s!"(tm {pathStr p} {expFull e} {Lat.tyStr (expandAlias a)})"
+  | .patternMismatch p e a => s!"(pm {pathStr p} {Lat.tyStr (expandAlias e)} {Lat.tyStr (expandAlias a)})"
   | m => itemStr m
 
 def insertKey (x : Path × String) : List (Path × String) → List (Path × String)
@@ -86,17 +107,20 @@ partial def sortRuns : List Mismatch → List Mismatch
   | [] => []
 
 /-- `<structure: items with full payloads> ;; <what the text keeps: items with head names>` -/
-def render : Res → String
+def render (withText : Bool) : Res → String
   | .fault _ => "fault"
   | .ok [] => "empty"
-  | .ok ms => " ".intercalate ((sortRuns ms).map itemFull) ++ " ;; " ++ " ".intercalate ((sortRuns ms).map itemStr)
+  | .ok ms =>
+      " ".intercalate ((sortRuns ms).map itemFull) ++
+        (if withText then " ;; " ++ " ".intercalate ((sortRuns ms).map itemStr) else "")
 
+/-- a term with a user alias: only the structure is printed (the text names aliases, which the head-name projection does not model) -/
 def descs (e a : Sexp) : String :=
-  if hasAlias e || hasAlias a then "alias" else
-  match Lat.ty? e, Lat.ty? a with
+  let al := hasAlias e || hasAlias a
+  match Lat.ty? (aliasAsVar e), Lat.ty? (aliasAsVar a) with
   | some e, some a =>
       if tyUnsafe e || tyUnsafe a then "unsafe-key"
-      else render (describe Lat.cfg Lat.sfh e a (subjectPath "x"))
+      else render (!al) (describe Lat.cfg Lat.sfh e a (subjectPath "x"))
   | _, _ => "bad-op"
 
 /-! ### `sigd (SIG*) ARGS` — px.DescribeSignatures(signatures, ARGS, nil)
